@@ -158,6 +158,25 @@ NA = {
 }
 
 
+HISTORY = ' Also: the same functions after an earlier call (same arguments ' \
+          'under other options, siblings, arguments of the same characters) ' \
+          'must answer as they would alone (no state shared between calls).'
+EXTRA = {
+    'C04': HISTORY, 'C10': HISTORY, 'C11': HISTORY, 'C14': HISTORY,
+    'C15': HISTORY, 'C17': HISTORY, 'C18': HISTORY, 'C19': HISTORY,
+    'C12': ' Also: normalize_time after an earlier call with the same zone '
+           'object at another offset.',
+    'C20': ' Also: ensure_tree / delete_if_exists after an earlier call for '
+           'the same path still act on the file system.',
+    'C09': ' Also: handler programs over one or two context objects (reuse '
+           'for a second handler, nesting around one exception, '
+           'force_reraise / capture / flag switches in the body) compared '
+           'step by step with a reference state.',
+    'C06': ' Fault classes include MemoryError, RecursionError, '
+           'StopIteration, AssertionError, OSError, struct.error.',
+}
+
+
 def main():
     props = [json.loads(l)['id'] for l in
              open(os.path.join(VERIF, 'properties.jsonl'))]
@@ -176,7 +195,7 @@ def main():
                 'replay_cmd_template': '/venv/bin/python -m sa replay {path}',
                 'engine': 'sa',
                 'level_claimed': {'category': c['category'],
-                                  'text': c['text'],
+                                  'text': c['text'] + EXTRA.get(p, ''),
                                   'design_ref': c['design_ref']},
                 'level_note': c['note'],
                 'technique': c['technique'],
